@@ -280,6 +280,7 @@ func runC11(env *Env, rc *RunCtx) {
 		}
 	}
 	e := 0
+	costly := 0
 	for _, n := range cfg.NS {
 		for _, r := range n.Rels {
 			for _, o := range []string{"o0", "o1", "o2"} {
@@ -298,6 +299,15 @@ func runC11(env *Env, rc *RunCtx) {
 					res := env.Exec(et, []*Request{{Kind: "check", Tuple: its[0]}}, NoFaults())
 					rc.Rec.Execs++
 					rc.AddSchedule(res.TraceHash)
+					costly += res.Calls
+					if costly > 30000 && !rc.Replay {
+						// a program whose checks re-evaluate shared operands exponentially (thousands of
+						// storage calls each, dozens of checks): finite, but not worth minutes of one
+						// worker - and the stall watchdog would take the slow run for a hang. Whatever
+						// was checked so far stands.
+						rc.Count("cases_cut_short_too_expensive", 1)
+						return
+					}
 					if !res.Returned || len(res.Outs) != 1 {
 						continue // C15's business
 					}
